@@ -15,7 +15,7 @@ const lruT = "utils/simplewlru.Cache"
 
 func init() {
 	register("C29", "other", "T7 Pairing, T3 PostDominates, T12 Purity, T4 GuardedBy (normalised loop condition)",
-		"Decides the bookkeeping shape the LRU model depends on: every removal from the item map is paired with the weight decrement, the list removal and a nil-guarded eviction callback (each removed entry reported once, weight consistent); every growth of weight or of the list and every change of the bounds is followed by normalize(), whose loop exits only when weight <= maxWeight and length <= maxSize and which evicts the list's back element; Get and Add-of-existing refresh recency (MoveToFront), while Peek/Contains/Keys/Len/Weight/Total/GetOldest are read-only by the purity analysis; Keys walks from the back via Prev (oldest to newest); the thread-safe wrapper delegates each method to the same-named method under its lock. Equivalence with an LRU model over histories is not decided.",
+		"Decides the bookkeeping shape the LRU model depends on: every removal from the item map is paired with the weight decrement, the list removal and a nil-guarded eviction callback (each removed entry reported once, weight consistent); every growth of weight or of the list and every change of the bounds is followed by normalize(), whose loop exits only when weight <= maxWeight and length <= maxSize and which evicts the list's back element; Get and Add-of-existing refresh recency (MoveToFront), while Peek/Contains/Keys/Len/Weight/Total/GetOldest are read-only by the purity analysis; Keys walks from the back via Prev (oldest to newest); the thread-safe wrapper delegates each exported method (calls made through its unexported helpers included) to the same-named method under its lock, the two check-then-add composites to one read-only lookup (Contains or Peek; Peek when the previous value is returned) plus Add. The back element and the 'list is empty' fact may come from an accessor with several results (`elem, found := c.oldest()`): they are read from the accessor's returns. Equivalence with an LRU model over histories is not decided.",
 		[]string{"container/list contract (Back is the least recently moved-to-front element)", "eviction callbacks are opaque"},
 		runC29)
 }
@@ -291,18 +291,52 @@ func runC29(c *core.Ctx) {
 
 	c.Clause("C29.wrapper", func() {
 		// T20: each wlru.Cache method calls only same-named simplewlru methods (or the documented composites)
+		// The obligation is owed by the operations (exported methods); the calls an operation makes through
+		// unexported helpers of the wrapper (a locked implementation shared by two operations) are its own.
+		// The two check-then-add composites look the key up without refreshing recency: which read-only
+		// lookup they use is free as long as it yields what the operation returns (Contains or Peek for the
+		// presence, Peek for the previous value); their mutating calls must be exactly Add.
 		allowed := map[string][]string{
 			"ContainsOrAdd": {"Contains", "Add"},
 			"PeekOrAdd":     {"Peek", "Add"},
 		}
-		n := 0
-		for _, f := range p.MethodsOf("utils/wlru.Cache") {
+		lookups := map[string][]string{
+			"ContainsOrAdd": {"Contains", "Peek"},
+			"PeekOrAdd":     {"Peek"},
+		}
+		pur := core.Purity(p, "utils/simplewlru")
+		readOnly := map[string]bool{}
+		for g, reason := range pur {
+			if g.RecvTypeName() == lruT && g.Obj != nil && reason == "" {
+				readOnly[g.Obj.Name()] = true
+			}
+		}
+		var innerOf func(f *core.FuncInfo, depth int, seen map[*core.FuncInfo]bool) []string
+		innerOf = func(f *core.FuncInfo, depth int, seen map[*core.FuncInfo]bool) []string {
 			var inner []string
 			for _, cs := range f.Calls() {
 				if len(cs.Name) > len(lruT) && cs.Name[:len(lruT)+1] == lruT+"." {
 					inner = append(inner, cs.Name[len(lruT)+1:])
+					continue
+				}
+				fn, ok := cs.Callee.(*types.Func)
+				if !ok || depth <= 0 {
+					continue
+				}
+				if g := p.FuncOf(fn); g != nil && !seen[g] && g.Obj != nil && !g.Obj.Exported() && g.RecvTypeName() == "utils/wlru.Cache" {
+					seen[g] = true
+					inner = append(inner, innerOf(g, depth-1, seen)...)
+					delete(seen, g)
 				}
 			}
+			return inner
+		}
+		n := 0
+		for _, f := range p.MethodsOf("utils/wlru.Cache") {
+			if f.Obj == nil || !f.Obj.Exported() {
+				continue
+			}
+			inner := innerOf(f, 2, map[*core.FuncInfo]bool{f: true})
 			if len(inner) == 0 {
 				continue
 			}
@@ -314,7 +348,36 @@ func runC29(c *core.Ctx) {
 			sort.Strings(inner)
 			w2 := append([]string(nil), want...)
 			sort.Strings(w2)
-			c.Check(fmt.Sprint(inner) == fmt.Sprint(w2), short(f.Name)+" delegates to "+fmt.Sprint(want), "T20 WrapperDelegation", f.Pos(), "calls exactly "+fmt.Sprint(inner)+" on the wrapped cache", fmt.Sprintf("calls %v on the wrapped cache, expected %v", inner, w2))
+			ok := fmt.Sprint(inner) == fmt.Sprint(w2)
+			if lk, composite := lookups[f.Obj.Name()]; composite && !ok {
+				// mutating calls: exactly those of the expected list; read-only calls: one of the lookups
+				var mut, ro, wantMut []string
+				for _, m := range inner {
+					if readOnly[m] {
+						ro = append(ro, m)
+					} else {
+						mut = append(mut, m)
+					}
+				}
+				for _, m := range w2 {
+					if !readOnly[m] {
+						wantMut = append(wantMut, m)
+					}
+				}
+				ok = fmt.Sprint(mut) == fmt.Sprint(wantMut) && len(ro) > 0
+				for _, m := range ro {
+					isLookup := false
+					for _, l := range lk {
+						if l == m {
+							isLookup = true
+						}
+					}
+					if !isLookup {
+						ok = false
+					}
+				}
+			}
+			c.Check(ok, short(f.Name)+" delegates to "+fmt.Sprint(want), "T20 WrapperDelegation", f.Pos(), "calls exactly "+fmt.Sprint(inner)+" on the wrapped cache", fmt.Sprintf("calls %v on the wrapped cache, expected %v", inner, w2))
 		}
 		c.ExpectAtLeast("wlru wrapper methods", n, 1)
 	})
